@@ -13,8 +13,16 @@
   NOT theorems (sampled on the real code by harness/props/c11.py): true altitude at the REPORTED
   (rounded, zone-time) sunrise/sunset against an independent ephemeris, noon is the day's maximum,
   "one hour earlier" as a statement about two different instants' Julian days.
+
+  Round 3: the object state machine of Model/SunpathObj.lean (six public attributes, checked setters,
+  every method of the property a read).  PROVED: reads change nothing and commute, a refused
+  operation leaves the state (hence every later answer) as it was, after ANY history every answer
+  is the answer of a fresh Sunpath built from the final public attributes, the setters' range
+  asserts are the documented ranges.  What ties these to the real object is the `hist`
+  correspondence (one real Sunpath, step by step) – the theorems are about the model.
 -/
 import Ladybug.Proofs.C11Lemmas
+import Ladybug.Proofs.C11Obj
 
 open Cal Real
 
@@ -512,3 +520,224 @@ example : monthDays 2 2 = .ok [1, 15] := by decide +kernel
 example : monthDays 1 4 = .ok [1, 8, 15, 22, 29] := by decide +kernel
 
 end SunTimes
+
+/-! ### Cooperating sites: the sunrise / noon / sunset consumer of the daylight-saving test -/
+
+namespace SunTimes
+
+section Consumers
+
+variable {α : Type} [Add α] [Sub α] [Mul α] [Div α] [Neg α] [OfScientific α] [LT α] [LE α]
+  [DecidableLT α] [DecidableLE α] [Transc α]
+
+omit [Neg α] [LT α] [LE α] [DecidableLT α] [DecidableLE α] [Transc α] in
+/-- Inside the daylight-saving window the three reported float hours are EXACTLY the standard-time
+    hours plus one (sunrise and sunset when they exist, noon always); outside they are the
+    standard-time hours.  Together with `C11_dst_shift_inside` (the sun of a clock time is computed
+    for the hour minus one) the two consumers of the window test shift in opposite directions by the
+    same hour, so the sun of the reported clock time is the sun of the unshifted instant. -/
+theorem C11_riseset_dst_shift (noonF : α) (ha : Option α) :
+    riseSetHours noonF ha true =
+      ((riseSetHours noonF ha false).1.map (· + 1.0), (riseSetHours noonF ha false).2.1 + 1.0,
+       (riseSetHours noonF ha false).2.2.map (· + 1.0)) := by
+  cases ha <;> simp [riseSetHours]
+
+/-- Both consumers ask the SAME window test of the SAME (leap-adjusted) minute of the year: the flag
+    of the sun at the input date-time and the shift of that day's sunrise / noon / sunset agree. -/
+theorem C11_consumers_same_test (ofN : Nat → α) (c : Sun.Cfg α) (p : Option AP) (d : DT)
+    (solar : Bool) (dep : α) (s : Sun.SunOut α × Bool) (hs : sunOfDT ofN c p d solar = .ok s) :
+    riseSetFloat ofN c p d dep solar =
+      riseSetHours
+        (noonFrac (Sun.deg (Sun.rad c.lon))
+          (Sun.solarGeometry (Sun.julianDay
+            (ofN (Sun.daysFrom010119 (if (d.leap || c.leap) then 2016 else 2017) d.month d.day))
+            (ofN (Sun.dayFracHundredths (d.minute + d.hour * 60)) / 100.0)
+            (Sun.timeZoneOf (Sun.rad c.lon) c.tz))).2
+          (Sun.timeZoneOf (Sun.rad c.lon) c.tz) solar)
+        (sunriseHourAngle (Sun.latitudeRad c.lat)
+          (Sun.solarGeometry (Sun.julianDay
+            (ofN (Sun.daysFrom010119 (if (d.leap || c.leap) then 2016 else 2017) d.month d.day))
+            (ofN (Sun.dayFracHundredths (d.minute + d.hour * 60)) / 100.0)
+            (Sun.timeZoneOf (Sun.rad c.lon) c.tz))).1 (Sun.rad dep))
+        s.2 := by
+  have hflag : s.2 = isDst p ({ d with leap := d.leap || c.leap } : DT).moy := by
+    unfold sunOfDT at hs
+    simp only at hs
+    split at hs
+    · cases hs; rfl
+    · cases hs
+  rw [hflag]
+  rfl
+
+end Consumers
+
+end SunTimes
+
+/-! ### The Sunpath object: histories (round 3) -/
+
+namespace SunpathObj
+
+open SunTimes
+
+section Machine
+
+variable {α : Type} [Add α] [Sub α] [Mul α] [Div α] [Neg α] [OfScientific α] [LT α] [LE α]
+  [DecidableLT α] [DecidableLE α] [Transc α]
+variable (ofN : Nat → α) (toRat : α → Option Rat) (ofI : Int → α)
+
+/-- A read (`is_daylight_saving_hour`, `calculate_sun*`, `calculate_sunrise_sunset*`, the analemma
+    and day-arc methods, answered or refused) leaves the object exactly as it was. -/
+theorem C11_read_pure (o : Obj α) (q : Query α) : (step ofN toRat ofI o (.rd q)).1 = o := rfl
+
+/-- Any sequence of reads, in any order and with any repetition: the object is unchanged and every
+    answer is the answer the untouched object gives to that question alone.  (In particular the
+    answers do not depend on the order of the questions nor on what was asked before.) -/
+theorem C11_reads_only (qs : List (Query α)) : ∀ (o : Obj α),
+    run ofN toRat ofI o (qs.map .rd) = (o, qs.map (observe ofN toRat ofI o)) := by
+  induction qs with
+  | nil => intro o; rfl
+  | cons q qs ih => intro o; simp only [List.map_cons, run, step, ih]
+
+/-- Two questions asked in either order get the same two answers. -/
+theorem C11_reads_commute (o : Obj α) (q1 q2 : Query α) :
+    (run ofN toRat ofI o [.rd q1, .rd q2]).2 = [observe ofN toRat ofI o q1, observe ofN toRat ofI o q2] ∧
+    (run ofN toRat ofI o [.rd q2, .rd q1]).2 = [observe ofN toRat ofI o q2, observe ofN toRat ofI o q1] :=
+  ⟨rfl, rfl⟩
+
+/-- A refused operation – a setter given a non-number, an out-of-range value or something that is
+    not an AnalysisPeriod; a call whose arguments cannot be built; a read that raises (a date that
+    does not exist, a bad step count, …) – returns the state it was given. -/
+theorem C11_refused_preserves (o : Obj α) (op : Op α)
+    (h : (step ofN toRat ofI o op).2.isErr = true) : (step ofN toRat ofI o op).1 = o := by
+  cases op with
+  | setLat v =>
+    cases v with
+    | error e => rfl
+    | ok v =>
+      unfold step at h ⊢
+      by_cases hv : latOk v = true
+      · simp [hv, Out.isErr] at h
+      · simp [hv]
+  | setLon v =>
+    cases v with
+    | error e => rfl
+    | ok v =>
+      unfold step at h ⊢
+      by_cases hv : lonOk v = true
+      · simp [hv, Out.isErr] at h
+      · simp [hv]
+  | setNorth v =>
+    cases v with
+    | error e => rfl
+    | ok v =>
+      unfold step at h ⊢
+      by_cases hv : northOk v = true
+      · simp [hv, Out.isErr] at h
+      · simp [hv]
+  | setTz v =>
+    cases v with
+    | error e => rfl
+    | ok v =>
+      unfold step at h ⊢
+      by_cases hv : tzOk (Sun.timeZoneOf (Sun.rad o.lon) v) = true
+      · simp [hv, Out.isErr] at h
+      · simp [hv]
+  | setLeap b => simp [step, Out.isErr] at h
+  | setPeriod p =>
+    cases p with
+    | error e => rfl
+    | ok p => simp [step, Out.isErr] at h
+  | argErr e => rfl
+  | rd q => rfl
+
+/-- Hence every later answer is the one the object gave (would have given) before the refused
+    operation. -/
+theorem C11_refused_preserves_answers (o : Obj α) (op : Op α) (q : Query α)
+    (h : (step ofN toRat ofI o op).2.isErr = true) :
+    observe ofN toRat ofI (step ofN toRat ofI o op).1 q = observe ofN toRat ofI o q := by
+  rw [C11_refused_preserves ofN toRat ofI o op h]
+
+/-- A `Sunpath(...)` that could be constructed holds attributes that pass their setters' asserts,
+    and no history – setters accepted or refused, reads, refused reads, in any order – leads out of
+    that. -/
+theorem C11_history_valid (lat lon : α) (tz : Option α) (north : α) (period : Option AP) (o : Obj α)
+    (h : construct lat lon tz north period = .ok o) (ops : List (Op α)) :
+    (run ofN toRat ofI o ops).1.Valid :=
+  run_valid ofN toRat ofI ops o (construct_valid lat lon tz north period o h)
+
+/-- HISTORY REFINES FRESH.  Start from any object whose attributes pass their asserts (every
+    constructed Sunpath, `C11_history_valid`), apply ANY history, then ask any question: a fresh
+    `Sunpath` built from the final public attributes (`Sunpath(lat, lon, tz, north, period)` then
+    `is_leap_year = leap`) exists and gives exactly the answer the used object gives.  The model has
+    no slot besides the six attributes; that the real object has none that matters is the `hist`
+    correspondence. -/
+theorem C11_history_refines_fresh (o0 : Obj α) (h0 : o0.Valid) (ops : List (Op α)) (q : Query α) :
+    ∃ f, fresh ofN toRat ofI (run ofN toRat ofI o0 ops).1 = .ok f ∧
+      (run ofN toRat ofI o0 (ops ++ [.rd q])).2.getLast? = some (observe ofN toRat ofI f q) := by
+  refine ⟨(run ofN toRat ofI o0 ops).1,
+    fresh_of_valid ofN toRat ofI _ (run_valid ofN toRat ofI ops o0 h0), ?_⟩
+  rw [run_append]
+  simp [run, step]
+
+/-- The answers do not depend on HOW the public state was reached: two histories that end in the
+    same six attributes answer every question alike. -/
+theorem C11_history_state_only (o1 o2 : Obj α) (ops1 ops2 : List (Op α)) (q : Query α)
+    (h : (run ofN toRat ofI o1 ops1).1 = (run ofN toRat ofI o2 ops2).1) :
+    (run ofN toRat ofI o1 (ops1 ++ [.rd q])).2.getLast? =
+      (run ofN toRat ofI o2 (ops2 ++ [.rd q])).2.getLast? := by
+  rw [run_append, run_append]
+  simp [run, step, h]
+
+/-- Switching the year kind (or any other accepted setter) touches only its own attribute: after
+    `is_leap_year = b` the daylight-saving period, location and zone are what they were, so the
+    window test runs on the same period in the new calendar. -/
+theorem C11_set_leap_only (o : Obj α) (b : Bool) :
+    (step ofN toRat ofI o (.setLeap b)).1 = { o with leap := b } := rfl
+
+end Machine
+
+/-- Over the reals the radian asserts of the setters are the documented ranges in degrees / hours:
+    latitude −90..90, longitude −180..180, north angle −360..360, time zone −12..14. -/
+theorem C11_setter_ranges (v : ℝ) :
+    (latOk v = true ↔ -90 ≤ v ∧ v ≤ 90) ∧ (lonOk v = true ↔ -180 ≤ v ∧ v ≤ 180) ∧
+    (northOk v = true ↔ -360 ≤ v ∧ v ≤ 360) ∧ (tzOk v = true ↔ -12 ≤ v ∧ v ≤ 14) := by
+  have hp := Real.pi_pos
+  have e2 : (2.0 : ℝ) = 2 := by norm_num
+  have e180 : (180.0 : ℝ) = 180 := by norm_num
+  have e12 : (12.0 : ℝ) = 12 := by norm_num
+  have e14 : (14.0 : ℝ) = 14 := by norm_num
+  refine ⟨?_, ?_, ?_, ?_⟩
+  · simp only [latOk, Sun.rad, Sun.pi_eq, decide_eq_true_eq, e2, e180]
+    constructor
+    · rintro ⟨a, b⟩; constructor <;> nlinarith
+    · rintro ⟨a, b⟩; constructor <;> nlinarith
+  · simp only [lonOk, Sun.rad, Sun.pi_eq, decide_eq_true_eq, e180]
+    constructor
+    · rintro ⟨a, b⟩; constructor <;> nlinarith
+    · rintro ⟨a, b⟩; constructor <;> nlinarith
+  · simp only [northOk, Sun.rad, Sun.pi_eq, decide_eq_true_eq, e2, e180]
+    constructor
+    · rintro ⟨a, b⟩; constructor <;> nlinarith
+    · rintro ⟨a, b⟩; constructor <;> nlinarith
+  · simp only [tzOk, decide_eq_true_eq, e12, e14]
+
+-- non-vacuity: New York with the tested period is a constructible (hence valid) object over ℝ, a
+-- refused setter exists, and a history with a refused step in the middle is covered
+example : ∃ o : Obj ℝ, construct (40.72 : ℝ) (-74.02) (some (-5)) 0 (some ⟨3, 8, 2, 11, 1, 2, 1, false⟩) = .ok o := by
+  have h := C11_setter_ranges
+  have a1 : latOk (40.72 : ℝ) = true := ((h _).1).2 (by norm_num)
+  have a2 : lonOk (-74.02 : ℝ) = true := ((h _).2.1).2 (by norm_num)
+  have a3 : tzOk (-5 : ℝ) = true := ((h _).2.2.2).2 (by norm_num)
+  have a4 : northOk (0 : ℝ) = true := ((h _).2.2.1).2 (by norm_num)
+  refine ⟨⟨40.72, -74.02, -5, 0, false, some ⟨3, 8, 2, 11, 1, 2, 1, false⟩⟩, ?_⟩
+  simp [construct, a1, a2, a3, a4, Sun.timeZoneOf]
+example (o : Obj ℝ) : (step (fun n => (n : ℝ)) (fun _ => none) (fun i => (i : ℝ)) o (.setLat (.ok 100))).2.isErr = true := by
+  have : latOk (100 : ℝ) = false := by
+    have := ((C11_setter_ranges (100 : ℝ)).1)
+    cases hh : latOk (100 : ℝ) with
+    | false => rfl
+    | true => exact absurd (this.1 hh).2 (by norm_num)
+  simp [step, this, Out.isErr]
+example (o : Obj ℝ) : (step (fun n => (n : ℝ)) (fun _ => none) (fun i => (i : ℝ)) o (.setPeriod (.error .assert))).2.isErr = true := rfl
+
+end SunpathObj
